@@ -75,6 +75,8 @@ def _job(job):
     out = {'id': job['id'], 'bad': None, 'n': 0}
     try:
         with rr.time_limit(60):
+            for pre in job.get('pre', []):
+                rr.compile_grammar(pre)
             mod, _ = rr.compile_grammar(job['text'])
     except Exception as exc:      # noqa: BLE001
         out['bad'] = f'Grammar() raised {type(exc).__name__}: {str(exc)[:120]}'
@@ -121,6 +123,22 @@ def run(tier, seed, lean):
                 inputs = [inp] + ([' ' + inp + ' '] if ignore else []) + ['', 'zz']
                 jobs.append({'id': len(jobs), 'text': text, 'inputs': inputs, 'want': want,
                              'meta': f'{inner[0]} / {wname} / depth {depth} / {"named" if named else "unnamed"}{" / ignore" if ignore else ""}'})
+    # a nest in a base grammar, read through a derived grammar that overrides the innermost rule: code that was moved
+    # into helper functions must still look rules up through the grammar that was entered
+    for wname, wrap, wval in WRAPPERS[:5]:
+        for depth in [d for d in depths if d in (1, 9, 16, 17, 18, 19, 20, 21, 36, 37, 38, 39, 60)]:
+            tag = f'{seed}_{len(jobs)}'
+            body = 'Item'
+            for _ in range(depth):
+                body = wrap(body)
+            base = f'grammar c17b_{tag}\nstart = {body}\nItem = "a"\n'
+            derived = f'grammar c17d_{tag} extends c17b_{tag}\noverride Item = "b"\n'
+            v = 'b'
+            for _ in range(depth):
+                v = wval(v)
+            want = {'b': ('V', pv(v))}
+            jobs.append({'id': len(jobs), 'pre': [base], 'text': derived, 'inputs': ['b', ''], 'want': want,
+                         'meta': f'override read through a derived grammar / {wname} / depth {depth} / named'})
     results = corerun.pool_map(_job, jobs, chunksize=4)
     violations, broken = [], []
     evals = sum(r['n'] for r in results)
